@@ -509,7 +509,7 @@ FIDELITY_ADAPTERS = [StatusAd, OutputAd, DetailsAd, InstanceFilesAd]      # Flow
 # TLC plumbing
 # =====================================================================================================================
 def design_runs(chk, gen, thorough):
-    inv = "INVARIANT TypeOK\nINVARIANT Atomic\nINVARIANT OldOrNew\nINVARIANT Fidelity\nINVARIANT CleanUpdateCommits\n" \
+    inv = "INVARIANT TypeOK\nINVARIANT Atomic\nINVARIANT OldOrNew\nINVARIANT Fidelity\nINVARIANT CleanUpdateCommits\nINVARIANT LatestAfterCleanUpdate\n" \
           "PROPERTY CommitIsAtomic\nCHECK_DEADLOCK FALSE\n"
     consts = ("CONSTANTS\n  Live = {\"f\", \"g\"}\n  Tmp = {\"t1\", \"t2\", \"t3\"}\n  NW = %d\n  MaxUpd = %d\n"
               "  Classes = {\"plain\", \"newline\"}\n  Fields = {\"x\", \"y\"}\n  FaultOps = {\"open\", \"write\", \"close\", \"rename\"}\n"
@@ -827,15 +827,23 @@ def run_history(ad, hist, fmap):
             ad.configure(assign)
         except NotApplicable as e:
             return ("n/a", str(e))
+        got = info = None
         for i, h in enumerate(hist):
             ad.set_value(None)
-            rec, res, exc = ad.recorded_update(snapshots=False)
+            fault = (h["f"], 1 if h["f"] == "write" else 0) if h["f"] != "none" else None
+            rec, res, exc = ad.recorded_update(fault=fault, snapshots=False)
+            if fault is not None and not rec.fired:
+                return None
+            if not h["ok"]:
+                continue                # a failed update: the listing may be the old or the new one
             want = {f: ad.want_safe(f) for f in ad.files}
             disk = ad.disk()
             got = {f: ad.load_safe(f, disk[f], inplace=True) for f in ad.files}
-            info = {"classes": classes, "persisted": i + 1, "exc": exc}
+            info = {"classes": classes, "persisted": i + 1, "exc": exc, "after_failure": any(not x["ok"] for x in hist[:i])}
             if any(got[f] != want[f] for f in ad.files):
                 break
+        if got is None:
+            return "nothing-committed"
         return want, got, info
     cur = {}
     for i, h in enumerate(hist):
@@ -854,7 +862,7 @@ def run_history(ad, hist, fmap):
         if h["ok"]:
             last_ok = i
             want = {f: ad.want_safe(f) for f in ad.files}
-            info = {"classes": dict(cur), "persisted": i - epoch + 1, "exc": exc}
+            info = {"classes": dict(cur), "persisted": i - epoch + 1, "exc": exc, "after_failure": any(not x["ok"] for x in hist[:i])}
     if last_ok is None:
         return "nothing-committed"
     disk = ad.disk()
@@ -874,6 +882,11 @@ def select_histories(ad_cls, fam, thorough):
         return [(c, {"x": probe_fields[0]}) for c in fam["one"]]
     pairs = [(a, b) for i, a in enumerate(probe_fields) for b in probe_fields[i + 1:]] if thorough else ad_cls.pairs_quick
     out, seen = [], set()
+    # histories with FAILED updates (ok ; change ; failed update ; fault-free update of the unchanged state ...) on the first
+    # field, plain values: after a fault-free update the file must hold the latest values
+    for c in fam["one"]:
+        if any(h["f"] != "none" for h in c["hist"]) and all(h["keep"] or h["set"] == "plain" for h in c["hist"]):
+            out.append((c, {"x": probe_fields[0], "y": probe_fields[1]}))
     for (fa, fb) in pairs:
         fmap = {"x": fa, "y": fb}
         for c in fam["two"]:
@@ -962,18 +975,20 @@ def fidelity(chk, ad_cls, fam, scratch, thorough, only=None, todo=None):
         if not ad_cls.config_time:
             spec_read = case["read"]["f"]
             mine = {g: info["classes"].get(fmap[g], "unset") for g in fmap}
-            if any(spec_read[g] != mine[g] for g in fmap):
+            if any(spec_read[g] != mine[g] for g in fmap if g in spec_read):
                 raise MachineryError("history %s: the driver expects classes %s, the specification %s" % (hist, mine, spec_read))
         bad = [f for f in ad.files if got[f] != want[f]]
         if bad:
             f = bad[0]        # output.json is derived from output.txt: one report per history
             nonplain = sorted((g, c) for g, c in info["classes"].items() if c not in ("plain", "unset"))
             single = nonplain if len(nonplain) == 1 else ([] if nonplain else sorted(info["classes"].items())[:1])
-            if (info["persisted"] == 1 or ad_cls.config_time) and single:
+            if (info["persisted"] == 1 or ad_cls.config_time) and single and not info.get("after_failure"):
                 fresh_bad.update(single)          # this (field, class) is read back wrongly on its own
             known = [gc for gc in nonplain if gc in fresh_bad] or [gc for gc in info["classes"].items() if gc in fresh_bad]
             if known:
                 key = "%s:fidelity:%s:%s" % ((f,) + tuple(known[0]))
+            elif info.get("after_failure"):
+                key = "%s:fidelity:fault-free-update-after-failed-update" % f
             elif info["persisted"] > 1:
                 key = "%s:fidelity:same-value-persisted-again" % f
             else:
